@@ -173,3 +173,31 @@ class ScriptedRandom(Random):
 
     def random(self):
         return float(Fraction(self._next()))
+
+
+class Opaque:
+    """A hashable node label with equality but NO ordering (like an Enum member): any code path that ends up comparing two labels
+    with < (a heap tie that falls through to the label, sorted() over nodes) raises TypeError, which the engine reports."""
+
+    __slots__ = ("i",)
+
+    def __init__(self, i):
+        self.i = i
+
+    def __eq__(self, o):
+        return type(o) is Opaque and o.i == self.i
+
+    def __hash__(self):
+        return hash(("opaque-label", self.i))
+
+    def __repr__(self):
+        return "<L%d>" % self.i
+
+
+def namer(mode, prefix="n"):
+    """Node-label scheme of a harness: falsy -> the ints themselves, 'opaque' -> unorderable hashable objects, anything else -> strings."""
+    if mode == "opaque":
+        return lambda u: Opaque(u)
+    if mode:
+        return lambda u: "%s%d" % (prefix, u)
+    return lambda u: u
